@@ -100,7 +100,7 @@ class Census:
 
 FINITE_SOURCES = re.compile(
     r"^(std|core|alloc)::(vec::(Vec|IntoIter|Drain)|slice::(Iter|IterMut|Chunks|Windows)|str::(Chars|CharIndices|Bytes|Lines|SplitWhitespace|Split|SplitN)|"
-    r"collections::(hash|btree)_(map|set)::\w+|collections::\w+::\w+|option::(IntoIter|Iter|IterMut|Option)|ops::(Range|RangeInclusive)|array::IntoIter|string::String)$"
+    r"collections::(hash|btree)_(map|set)::\w+|collections::\w+::\w+|collections::(HashMap|HashSet|BTreeMap|BTreeSet|VecDeque|BinaryHeap|LinkedList)|option::(IntoIter|Iter|IterMut|Option)|ops::(Range|RangeInclusive)|array::IntoIter|string::String)$"
 )
 FINITE_ADAPTORS = {"Enumerate", "Map", "Rev", "Filter", "FilterMap", "Copied", "Cloned", "Peekable", "Skip", "Take", "StepBy", "Inspect", "TakeWhile", "SkipWhile", "MapWhile", "Fuse"}
 
@@ -646,6 +646,11 @@ class Discharger:
             vals = [rx.int_const(o) for o in ops]
             ok = all(0 <= v < 2**bits for v in vals)
             return ok, "arith", "all arithmetic in %s is over literals; every (sub)expression value %s fits %s" % (fn, sorted(set(vals))[-3:], ty)
+        # arithmetic of the generated-name counter, wherever it is written (manager methods, a nested state struct, free
+        # helpers of the manager module): decided on the interpreter's paths of the three allocating entry points
+        ok_sem, det_sem = self.counter_arith_semantic(f)
+        if ok_sem is not None:
+            return ok_sem, "arith", det_sem
         # manager counter
         if f.impl is not None and norm_ty(f.impl["self_ty"]) in codegen.MANAGERS:
             bad = []
@@ -690,6 +695,46 @@ class Discharger:
             if not bad and okc and wide:
                 return True, "arith", "%s adds 1/2 to its %s parameter(s) %s; every caller (%s) passes the manager counter self.var_index, which is bounded by the allocation count (one per AST node, 4 KiB input bound); %s" % (fn, "/".join(sorted({ptys[p_] for p_ in used})), sorted(used), sorted({x[0] for x in sites}), wdet)
         return False, "arith", "overflow-checked %s on run-time operands [%s] in %s: panics in debug, wraps in release" % (s["what"], s["operands"], fn)
+
+    def counter_arith_semantic(self, f):
+        """(ok, detail) when `f` belongs to the manager machinery (reachable in the resolved program only from the managers'
+        allocating methods), else (None, None)."""
+        entries = []
+        for M in codegen.MANAGERS:
+            for meth in ("get_printer", "get_file_printer", "get_matcher"):
+                k = codegen.mgr_key(self.f, M, meth)
+                if k:
+                    entries.append((M, meth, k))
+        if not hasattr(self, "_mgr_reach"):
+            roots = [p for p in self.m.bodies if any(mir.e1_key(p, self.f) == k for _, _, k in entries)]
+            self._mgr_reach = self.m.reachable(roots)
+            self._mgr_modules = {tuple(self.f.structs[M]["_module"]) for M in codegen.MANAGERS if M in self.f.structs}
+        mine = [p for p in self.m.bodies if mir.e1_key(p, self.f) == f.key]
+        # the managers' own machinery: code of the managers' module that the allocating methods reach
+        if not mine or not all(p in self._mgr_reach for p in mine) or tuple(f.module) not in self._mgr_modules:
+            return None, None
+        if not hasattr(self, "_mgr_sem"):
+            bad, offs, npaths = [], set(), 0
+            for M, meth, k in entries:
+                for r in codegen.table(self.f, k, codegen.AFF()):
+                    npaths += 1
+                    if r["unknown"]:
+                        bad.append("%s::%s [%s]: constructs not modelled: %s" % (M, meth, r["cond"][:40], r["unknown"][:2]))
+                    txt = r["outcome"] + " " + " ".join(r["effects"])
+                    for m_ in re.finditer(r"\{v([+-]\d+)?[:}]|= v([+-]\d+)?\b|, v([+-]\d+)?\]", txt):
+                        o = next((g_ for g_ in m_.groups() if g_), "+0")
+                        offs.add(int(o))
+                    arith = re.findall(r"\((?:[^()]|\([^()]*\))* [-+*] (?:[^()]|\([^()]*\))*\)", re.sub(r'"(?:[^"\\]|\\.)*?"', lambda q: q.group(0) if "{" in q.group(0) else '""', txt))
+                    arith = [a_ for a_ in arith if not re.fullmatch(r"\(%lf3:.*", a_) and re.search(r"(self\.|@\d|v[+-]?\d*) [-+*] ", a_)]
+                    if arith:
+                        bad.append("%s::%s [%s]: arithmetic that is not `counter ± constant`: %s" % (M, meth, r["cond"][:40], arith[:2]))
+            wide, wdet = counter_width_ok_layout(self.f)
+            if offs and min(offs) < 0:
+                bad.append("a generated index below the counter's entry value (offset %d)" % min(offs))
+            if offs and max(offs) > 8:
+                bad.append("the counter moves by %d in one request" % max(offs))
+            self._mgr_sem = (not bad and wide and bool(offs), "on the %d paths of the allocating methods every index is the counter plus a constant in %s and no other arithmetic reaches a value; %s%s" % (npaths, sorted(offs), wdet, ("; " + "; ".join(bad[:3])) if bad else ""))
+        return self._mgr_sem
 
     def byte_size_guard(self, f, ops):
         """count × unit in Size::byte_size is guarded at construction: every Size the parser builds passed the same product
@@ -752,6 +797,27 @@ def counter_width_ok(facts):
                 bad.append("%s.%s stores indices as %s" % (M, fl.get("name"), ty))
     if len(seen) != len(codegen.MANAGERS):
         bad.append("counter field var_index not found in every manager (%s)" % seen)
+    return (not bad), ("counter width: %s (needs ≥ %d values)" % (", ".join(seen), MAX_NAMES)) if not bad else "; ".join(bad)
+
+
+def counter_width_ok_layout(facts):
+    """Like counter_width_ok, but the counter is found by role (the one integer field of the manager state)."""
+    from .. import mgrstate
+
+    bad, seen = [], []
+    for M in codegen.MANAGERS:
+        lay = mgrstate.layout(facts, M)
+        cp = lay.get("counter")
+        if cp is None:
+            bad.append("%s: %s" % (M, "; ".join(lay["problems"]) or "no counter"))
+            continue
+        ty = lay["paths"][cp]
+        seen.append("%s.%s: %s" % (M, cp, ty))
+        if WIDE_COUNTER.get(ty, 0) < 16 or 2 ** WIDE_COUNTER.get(ty, 0) <= MAX_NAMES:
+            bad.append("%s.%s is %s: too narrow for %d names" % (M, cp, ty, MAX_NAMES))
+        for p_, t_ in lay["paths"].items():
+            if re.search(r"HashMap<.*,(u8|i8)>$", t_):
+                bad.append("%s.%s stores indices as %s" % (M, p_, t_))
     return (not bad), ("counter width: %s (needs ≥ %d values)" % (", ".join(seen), MAX_NAMES)) if not bad else "; ".join(bad)
 
 
